@@ -37,8 +37,8 @@ class Byte(Expression):
         return hex(self.value)
 
     def _compile(self, out, flags):
-        LEN = Code('len')
-        has_byte = POS < LEN(TEXT)
+        # (Don't use the builtin "len": a field or parameter may have that name.)
+        has_byte = POS < Code(TEXT, '.__len__()')
         is_match = TEXT[POS] == self.value
 
         with out.IF(Code(has_byte, ' and ', is_match)):
